@@ -12,6 +12,7 @@ import Pcore.Generated.FormatLettersX
 import Pcore.Proofs.FormatLat
 import Pcore.Proofs.FormatMergeRefine
 import Pcore.Proofs.FormatXAlt
+import Pcore.Proofs.FormatSpan
 /-!
 # C20 — String formatting is total and faithful to the format directive
 
@@ -97,6 +98,13 @@ Full statement / proved / missing
   `lawfulb` evaluated on the keys of the map), witnessed on `{Scalar, Integer, Integer[0, 9]}`;
   `C20_map_table_is_instance` (the 16-key model of `new(String, v, map)` above — `contextMap`, `mergeMaps`, `sortEntries` over the
   table `Key.sub` — IS the general rule instantiated with the default types: entry by entry at every nesting level, hence the same text).
+* THE FORMAT STRINGS OF A TIMESPAN (`Timespan.Format`, `Model/FormatSpan.lean`: `%D %H %M %S %L %N`, the flags `-` `_` `0`, a width, `%%`;
+  op `span`): `C20_span_total_partial` (text or the reported bad-format error for every format whose widths are within fmt's limit
+  and that has no remainder-nanosecond segment of width 0), full statement `C20_span_total_full` FALSE: `C20_span_fails_width_zero`
+  (known finding C20-span-nano-width-zero: `%D %-0N` divides by zero, `utils.Int64Pow(10, 0)` is 0) and `C20_span_fails_width_limit`
+  (known finding C20-span-width-limit: `%20000000D` shows fmt's `%!(NOVERB)`), `C20_span_width` (a `0`- or blank-padded D H M S
+  segment is at least as wide as requested), `C20_span_sum` (the segments of `%D-%H:%M:%S.%N` add up to the value),
+  `C20_span_literal` (a format without `%` is rendered verbatim).
 * missing: the digits of `%e %f %g %a` (fmt/strconv float formatting is a parameter `FloatIO`; only the dispatch,
   the format string handed over, floatGFormat's fraction restoration and padNumber are modelled and compared);
   NaN/±Inf (not instances of Float in pcore: no Float format entry applies to them).
@@ -1046,5 +1054,88 @@ example : formatX kindKeys io0 [(.base .obj, .mk { simpleFmt 'p' with alt := tru
     .text "My::Pair(\n  'a' => 1,\n  'b' => [\n    My::One(\n      'v' => 2\n    ),\n    3]\n)".toList := by decide +kernel
 example : ppObj { simpleFmt 'p' with alt := true } 1 true true "T".toList [("'k'".toList, "1".toList)] =
     "\n  T(\n    'k' => 1\n  )".toList := by decide +kernel
+
+/-! ## the format strings of a Timespan: `Timespan.Format(format)` (`Pcore/Model/FormatSpan.lean`; op `span`) -/
+
+/-- the full statement: formatting a Timespan never faults -/
+def C20_span_total_full : Prop := ∀ (fm : Str) (ns : Int), spanFormat fm ns ≠ .fault
+
+/-- **totality** outside the two classes where the code faults: for every format string and every Timespan the result is a text or
+    the reported bad-format error, provided the segments' widths are within fmt's limit and no nanosecond segment that shows a
+    remainder has width 0 -/
+theorem C20_span_total_partial (fm : Str) (ns : Int) (h : ∀ segs, spanParse fm = some segs → SegsOK segs) :
+    (∃ s, spanFormat fm ns = .text s) ∨ spanFormat fm ns = .badSpec := by
+  unfold spanFormat
+  cases hp : spanParse fm with
+  | none => exact Or.inr rfl
+  | some segs => exact Or.inl (spanFormat2_total segs (h segs hp) ns)
+
+/-- non-vacuity: the default format and a format with every flag pass the side condition -/
+example : (∀ segs, spanParse "%D-%H:%M:%S.%-N".toList = some segs → SegsOK segs) ∧
+    (∀ segs, spanParse "%_5H|%-M|%03S %6N".toList = some segs → SegsOK segs) :=
+  ⟨spanFormatOKb_sound _ (by decide +kernel), spanFormatOKb_sound _ (by decide +kernel)⟩
+
+example : spanFormat "%D-%H:%M:%S.%-N".toList 90061500000000 = .text "1-01:01:01.5".toList ∧
+    spanFormat "%H:%M".toList 90061500000000 = .text "25:01".toList ∧
+    spanFormat "%_5H|%-H|%05H".toList 90061500000000 = .text "   25|25|00025".toList ∧
+    spanFormat "%S.%L".toList 50000000 = .text "00.50 ".toList ∧
+    spanFormat "%D-%H:%M:%S.%-N".toList (-90061500000000) = .text "-1-01:01:01.5".toList ∧
+    spanFormat "%-_H".toList 0 = .badSpec ∧ spanFormat "100%% %S".toList 1500000000 = .text "100% 01".toList := by decide +kernel
+
+/-- known finding C20-span-nano-width-zero: `Timespan(50ms).Format("%D %-0N")` is a Go runtime fault (integer divide by zero:
+    `utils.Int64Pow(10, 0)` answers 0) -/
+theorem C20_span_fails_width_zero : ¬ C20_span_total_full := by
+  intro h
+  exact h "%D %-0N".toList 50000000 (by decide +kernel)
+
+/-- known finding C20-span-width-limit: a width beyond fmt's limit reaches fmt and shows as `%!(NOVERB)` -/
+theorem C20_span_fails_width_limit : ∃ (fm : Str) (ns : Int) (segs : List Seg), spanParse fm = some segs ∧
+      (∀ s ∈ segs, ∀ v, s = .val v → v.kind ≠ .nano) ∧ spanFormat fm ns = .fault :=
+  ⟨"%20000000D".toList, 0, [.val ⟨.day, some '0', some 20000000, true⟩], by decide +kernel,
+    by intro s hs v hv; simp at hs; subst hs; cases hv; decide, by decide +kernel⟩
+
+/-- **width**: a `0`- or blank-padded day / hour / minute / second segment is at least as wide as requested -/
+theorem C20_span_width (c : Char) (hc : c = '0' ∨ c = ' ') (w : Nat) (h1 : 1 ≤ w) (h2 : w ≤ 1000000) (n : Int) (s : Str)
+    (h : fmtD (valueFmt (some c) w) n = some s) : w ≤ s.length := valueFmt_width c hc w h1 h2 n s h
+
+/-- **the segments add up**: days, hours of the day, minutes of the hour, seconds of the minute and the nanoseconds of the second —
+    what `%D-%H:%M:%S.%N` shows — are a decomposition of the (non-negative) number of nanoseconds -/
+theorem C20_span_sum (ns : Int) (h : 0 ≤ ns) :
+    ns.tdiv nsPerDay * nsPerDay + (ns.tdiv nsPerHour).tmod 24 * nsPerHour + (ns.tdiv nsPerMin).tmod 60 * nsPerMin +
+      (ns.tdiv nsPerSec).tmod 60 * nsPerSec + ns.tmod nsPerSec = ns := span_sum ns h
+
+example : spanParse "%D-%H:%M:%S.%N".toList = some [.val ⟨.day, some '0', none, true⟩, .lit ['-'], .val ⟨.hour, some '0', none, false⟩,
+    .lit [':'], .val ⟨.minute, some '0', none, false⟩, .lit [':'], .val ⟨.second, some '0', none, false⟩, .lit ['.'],
+    .val ⟨.nano, some '0', none, false⟩] ∧
+    segValue ⟨.day, some '0', none, true⟩ 90061500000000 = some 1 ∧ segValue ⟨.hour, some '0', none, false⟩ 90061500000000 = some 1 ∧
+    segValue ⟨.nano, some '0', none, false⟩ 90061500000000 = some 500000000 := by decide +kernel
+
+/-- **literal text is rendered verbatim**: a format without `%` is its own rendering, for every non-negative Timespan -/
+theorem C20_span_literal (fm : Str) (hfm : ∀ c ∈ fm, c ≠ '%') (ns : Int) (h : 0 ≤ ns) : spanFormat fm ns = .text fm := by
+  have key : ∀ (l : Str) (pre : List Seg), (∀ c ∈ l, c ≠ '%') → (pre = [] ∨ ∃ p, pre = [.lit p]) →
+      spanSteps ⟨pre, none, .literal, some '0', none⟩ l =
+        some ⟨(match pre, l with | [], [] => [] | [], _ => [.lit l] | [.lit p], _ => [.lit (p ++ l)] | _, _ => pre), none, .literal, some '0', none⟩ := by
+    intro l
+    induction l with
+    | nil => intro pre _ hp; rcases hp with rfl | ⟨p, rfl⟩ <;> simp [spanSteps]
+    | cons c cs ih =>
+      intro pre hl hp
+      have hc : c ≠ '%' := hl c (List.mem_cons_self ..)
+      have hcs : ∀ x ∈ cs, x ≠ '%' := fun x hx => hl x (List.mem_cons_of_mem _ hx)
+      rcases hp with rfl | ⟨p, rfl⟩
+      · simp only [spanSteps, spanStep, if_true, hc, if_false, Option.bind, appendLiteral]
+        rw [ih [.lit [c]] hcs (Or.inr ⟨[c], rfl⟩)]
+        cases cs <;> simp
+      · simp only [spanSteps, spanStep, if_true, hc, if_false, Option.bind, appendLiteral]
+        rw [ih [.lit (p ++ [c])] hcs (Or.inr ⟨p ++ [c], rfl⟩)]
+        cases cs <;> simp
+  have hlt : ¬ ns < 0 := by omega
+  unfold spanFormat spanParse
+  rw [key fm [] hfm (Or.inl rfl)]
+  cases fm with
+  | nil => simp [spanFormat2, segsText, hlt]
+  | cons c cs => simp [spanFormat2, segsText, segText, hlt]
+
+example : spanFormat "no directive".toList 5 = .text "no directive".toList := by decide +kernel
 
 end Pcore.Format
